@@ -75,10 +75,13 @@ def first_diff(a, b, path=None):
     """First differing location between two canon trees, as a value-free
     pattern (list indices replaced by []), or None if equal.
 
-    Numbers are compared with == within the same type (so -0.0 == 0.0, but
-    1 != 1.0 and True != 1).
+    Numbers are compared with == (so -0.0 == 0.0 and 1 == 1.0); booleans are
+    not numbers here (True != 1).
     """
     path = path or []
+    if _is_number(a) and _is_number(b):
+        # an int default (score = 1) and the float read back (1.0) are equal
+        return None if a == b else (_pattern(path), a, b)
     if type(a) is not type(b):
         return _pattern(path), a, b
     if isinstance(a, dict):
@@ -101,6 +104,10 @@ def first_diff(a, b, path=None):
     if a != b:
         return _pattern(path), a, b
     return None
+
+
+def _is_number(value) -> bool:
+    return isinstance(value, (int, float)) and not isinstance(value, bool)
 
 
 def canon_diff(expected: dict, actual: dict):
